@@ -670,7 +670,7 @@ def c16(run):
         if not r["ok"]:
             raise Inconclusive("generator failed in " + stage)
         d0 = path + ".dig0"
-        thin = ["--thin", "4"] if run.quick else []
+        thin = ["--thin", "12", "--thinsens", "5"] if run.quick else ["--thin", "2"]
         run.vh(["replay-det", "--reps", str(reps), "--digests", d0] + thin, stage + ":replay", input_path=path)
         ref = sorted(open(d0).read().splitlines())
         for procs in (1, 4, 16):
